@@ -85,6 +85,14 @@ def main (argv=None):
   mod = importlib.import_module("pvm.checks." + cid.lower())
 
   replay_mode = args.replay is not None
+  if not replay_mode:
+    # replay files describe the latest run only
+    rdir = os.path.join(HERE, "replays", cid)
+    if os.path.isdir(rdir):
+      for fn in os.listdir(rdir):
+        if fn.endswith(".json"):
+          try: os.unlink(os.path.join(rdir, fn))
+          except OSError: pass
   if replay_mode:
     with open(args.replay) as f:
       rp = json.load(f)
